@@ -60,6 +60,13 @@ def _worker(args):
         r = JobResult(str(spec)[:80])
         r['harness_errors'].append("job crashed: " + "".join(traceback.format_exception(type(e), e, e.__traceback__))[-1500:])
     r['wall_s'] = time.time() - t
+    try:
+        from . import shims as _sh
+        if _sh.SHARED_WRITES:
+            r['counters']['shared_state_written'] = r['counters'].get('shared_state_written', 0) + 1
+            r['notes'].append("shared state written by the code under test: " + ", ".join(sorted(_sh.SHARED_WRITES))[:300])
+    except Exception:  # noqa
+        pass
     r['spec'] = spec if isinstance(spec, (str, int, list, tuple, dict)) else str(spec)
     return r
 
